@@ -1,4 +1,4 @@
-// C14_narrow_mixed_b.cpp -- narrow (op) int/long scalar types, mixed matrix*vector (see C14_narrow.hpp)
+// C14_narrow_mixed_b.cpp -- narrow (op) int/long scalar types (see C14_narrow.hpp); mixed matrix*vector lives in C14b_narrow.cpp
 #include "C14_narrow.hpp"
 
 namespace c14
@@ -10,20 +10,14 @@ void register_narrow_mixed_b()
   vrt::shard("narrow/mixed/int", [] {
     type_pair_small<i16, int>();
     type_pair_small<int, i8>();
+    // narrow unsigned left operand, negative right components: dim<unsigned short>(5,6) - dim<int>(-3,2) = (8,4)
+    componentwise<0, u16, int, 2>(vals<u16>(), vals<int>());
+    componentwise<1, u16, int, 2>(vals<u16>(), vals<int>());
+    componentwise<2, u16, int, 2>(vals<u16>(), vals<int>());
   });
   vrt::shard("narrow/mixed/long", [] {
     type_pair_small<i8, long>();
     type_pair_small<long, i16>();
   });
-#ifndef C14_NO_MIXED_MATVEC
-  vrt::shard("narrow/mixed/matrix_vector", [] {
-    matrix_vector<i16, int, 2, 2>(vals<i16>(true), vals<int>());
-    matrix_vector<int, i8, 2, 2>(vals<int>(true), vals<i8>());
-    matrix_vector<i8, i16, 2, 2>(vals<i8>(true), vals<i16>());
-    matrix_vector<u8, i8, 2, 2>(vals<u8>(true), vals<i8>());
-    matrix_vector<i8, long, 2, 2>(vals<i8>(true), vals<long>());
-    matrix_vector<i16, i8, 1, 3>(vals<i16>(), vals<i8>());
-  });
-#endif
 }
 }
